@@ -562,6 +562,18 @@ class MarkdownNormalizer(Renderer):
         children_content = re.sub(r"(?:^|(?<=\s))(#+)$", r"\\\1", children_content)
         self._in_heading = False
         self._current_inline_text = ""
+        if "\\\n" in children_content and element.level <= 2:
+            # Only the Setext form can hold a hard line break inside a heading.
+            lines = children_content.split("\n")
+            lines.append("===" if element.level == 1 else "---")
+            blank_line = self._second_prefix.rstrip()
+            result = f"{self._prefix}{lines[0]}\n"
+            result += "".join(f"{self._second_prefix}{line}\n" for line in lines[1:])
+            result += f"{blank_line}\n"
+            self._prefix = self._second_prefix
+            self._skip_next_blank_line = True
+            self._suppress_item_break = True
+            return result
         # If heading ends with hard break, don't add extra newline
         if children_content.endswith("\\"):
             result = f"{self._prefix}{'#' * element.level} {children_content}\n"
